@@ -80,6 +80,7 @@ type cell struct {
 	gateNested bool // also park at hook points reached while the calling session's own IK cache lock is held
 	parts      []string
 	twoGens    bool
+	noWarm     bool // do not load every partition's key once before the schedule starts: the cache under test has seen no eviction yet
 	skOlder    bool // partitions' keys are created half a lifetime after the SK; the run starts when the SK has expired and the IKs have not
 	workers    func(e *cenv) []*worker
 }
@@ -127,7 +128,7 @@ func cells() []cell {
 			if cp == 2 && (pol == "lru" || pol == "lfu") {
 				continue
 			}
-			out = append(out, cell{name: fmt.Sprintf("shared-%s-cap%d/hot-key-vs-churn", pol, cp), cfg: sharedCfg(pol, cp), parts: []string{"P1", "P2", "P3", "P4"}, workers: func(e *cenv) []*worker {
+			out = append(out, cell{name: fmt.Sprintf("shared-%s-cap%d/hot-key-vs-churn", pol, cp), cfg: sharedCfg(pol, cp), noWarm: true, parts: []string{"P1", "P2", "P3", "P4"}, workers: func(e *cenv) []*worker {
 				for i := 0; i < 3; i++ {
 					_, _ = e.sess["P1"].Decrypt(context.Background(), *world.CopyDRR(e.recs["P1"].drr))
 				}
@@ -239,7 +240,7 @@ func runCell(c cell, d *sched.DFS) (out schedOutcome) {
 	}
 	// warm: each partition's key is loaded once so that the interesting state is "cached, then evicted"
 	for _, p := range c.parts {
-		if c.skOlder {
+		if c.skOlder || c.noWarm {
 			break
 		}
 		if _, err := e.sess[p].Decrypt(ctx, *world.CopyDRR(e.recs[p].drr)); err != nil {
@@ -264,7 +265,7 @@ func runCell(c cell, d *sched.DFS) (out schedOutcome) {
 			}
 			return
 		}
-		if l == "" || strings.HasSuffix(point, ".locked") || point == "cck.destroy" || strings.HasPrefix(point, "auto.before_lock") {
+		if l == "" || strings.HasSuffix(point, ".locked") || point == "cck.destroy" || strings.HasPrefix(point, "auto.before_lock") || strings.HasPrefix(point, "auto.after_deferred_unlock") {
 			return
 		}
 		w := byLabel[l]
@@ -361,9 +362,13 @@ func TestC08(t *testing.T) {
 	maxPer := ev.Pick(250, 20000)
 	exhaustive := true
 	onlyShape := os.Getenv("VERIF_C08_SHAPE") // debugging aid: run only the stress shapes whose name contains this
+	onlyCell := os.Getenv("VERIF_C08_CELL") // debugging aid: run only the schedule cells whose name contains this
 	for _, c := range cells() {
-		if onlyShape != "" {
+		if onlyShape != "" && onlyCell == "" {
 			break
+		}
+		if onlyCell != "" && !strings.Contains(c.name, onlyCell) {
+			continue
 		}
 		d := &sched.DFS{}
 		n := 0
